@@ -43,6 +43,10 @@ func HarnessC08DoAcquireTokenBucket() {
 			vassert(!ghostAccepted, "C08/refused-but-bucket-was-charged")
 		}
 		vassert(ghostTryCalls <= 4, "C08/at-most-four-attempts")
+		// what the bucket was charged is exactly what was granted: one accepted attempt at most, nothing asked of the
+		// bucket after it, never a negative amount
+		vassert(ghostAcceptCount <= 1 && !ghostTryAfterAccept, "C08/bucket-charged-beyond-the-grant")
+		vassert(!ghostTryNegative, "C08/negative-amount-reaches-the-bucket")
 	}
 	vreach("end")
 }
